@@ -5,7 +5,7 @@ HERE = os.path.dirname(os.path.abspath(__file__))
 TECH = "bounded symbolic execution of the real Go code (go/ssa -> SMT, z3 decides every branch and assertion; counterexamples replayed natively)"
 claimed = {
  "C07": dict(
-   text="Bounded symbolic model checking of the real ExtAuthZFilter.Check / mustTriggerCheck / matchTriggerRule / stringMatch / GetPathQueryFragment code: for every rule set, path, query and fragment within the byte/shape bounds the solver shows (unsat) that the trigger decision is independent of query/fragment and equals the documented function of the path. A for-all over strings that tests cannot enumerate; bounded, not a proof.",
+   text="Bounded symbolic model checking of the real ExtAuthZFilter.Check / mustTriggerCheck / matchTriggerRule / stringMatch / GetPathQueryFragment code: for every rule set, path, query and fragment within the byte/shape bounds the solver shows (unsat) that the trigger decision is independent of query/fragment and equals the documented function of the path (quick tier: up to two rules; path.Clean and compiled patterns are modelled, an invalid pattern is one of six witnesses that really do not compile). A for-all over strings that tests cannot enumerate; bounded, not a proof.",
    note="Trusted: go/ssa lowering, the engine's string library (byte-array encoding), z3; regexp.MatchString is an uninterpreted function of (pattern, subject). Outside: strings longer than the caps, more rules/patterns than the bounds."),
  "C08": dict(
    text="Bounded symbolic model checking of ExtAuthZFilter.Check / matches with mock filters against an independently written reference evaluator (first matching chain, conjunction with short circuit, default deny / allow_unmatched), for all chain lists, criteria, header maps and flags within the bounds.",
